@@ -412,7 +412,7 @@ func TestC17(t *testing.T) {
 	// the other direction: tables first
 	fwd := func(rt *rapid.T) {
 		// (alias names need not be identifiers)
-		names := []string{"ll", "la", "l", "both", "src", "ls", "e", "ll-a", "..", "2x", "a+b", "@x", "l.", "é"}
+		names := []string{"ll", "la", "l", "both", "src", "ls", "e", "ll-a", "..", "2x", "a+b", "@x", "l.", "é", "r"}
 		table := map[string]c17Frag{}
 		for i := rapid.IntRange(1, 5).Draw(rt, "naliases"); i > 0; i-- {
 			nm := rapid.SampledFrom(names).Draw(rt, "alias")
@@ -659,29 +659,51 @@ func (f c17Frag) text() string {
 // word is examined (a chain), but a leading "!", "{" or "(" is then an
 // ordinary word and what follows it an argument.
 func c17Unfold(f c17Frag, table map[string]c17Frag, active map[string]bool, depth int, cmdPos bool) (text string, ambiguous bool) {
+	text, ambiguous, _ = c17UnfoldP(f, table, active, depth, cmdPos, false)
+	return
+}
+
+// c17UnfoldP also reports whether the text ends in a command of which only
+// assignment words and redirections have been seen: its name is still to come.
+//
+// noReserved: the fragment begins behind an assignment word or a redirection
+// of the same command: its first word is the command name (and examined), but
+// a leading "!", "{" or "(" is an ordinary word there.
+func c17UnfoldP(f c17Frag, table map[string]c17Frag, active map[string]bool, depth int, cmdPos, noReserved bool) (text string, ambiguous, pending bool) {
 	var b strings.Builder
 	for ci, c := range f.Cmds {
 		var ws []string
 		examine := true
-		if ci == 0 && !cmdPos && c.Wrap != "" {
+		if ci == 0 && (!cmdPos || noReserved) && c.Wrap != "" {
 			examine = false
 		}
+		prefix := 0 // assignment words and redirections in front of the command name
 		for wi, w := range c.Words {
-			if strings.Contains(w.Text, "=") && w.Name == "" && examine {
-				// an assignment word: the next word is still the command name
+			if c17PrefixWord(w) && examine && wi == prefix {
+				// an assignment word or a redirection: the next word is still the command name
 				ws = append(ws, w.Text)
+				prefix++
 				continue
 			}
 			v, isAlias := table[w.Name]
 			if examine && w.Name != "" && isAlias && !active[w.Name] && depth < 40 {
 				active[w.Name] = true
 				// is this word the command name of a command?
-				first := wi == 0 || wi == 1 && strings.Contains(c.Words[0].Text, "=") && c.Words[0].Name == ""
-				sub, amb := c17Unfold(v, table, active, depth+1, first && (ci > 0 || cmdPos))
+				first := wi == prefix
+				sub, amb, subPending := c17UnfoldP(v, table, active, depth+1, first && (ci > 0 || cmdPos), prefix > 0 || ci == 0 && noReserved)
 				delete(active, w.Name)
 				ambiguous = ambiguous || amb
 				ws = append(ws, strings.TrimRight(sub, " \t"))
+				if first && (ci > 0 || cmdPos) && subPending {
+					// the value is nothing but redirections: the command name is still to come
+					prefix = wi + 1
+					continue
+				}
 				examine = v.Blank != ""
+				if examine && wi < len(c.Words)-1 && strings.HasSuffix(strings.TrimRight(sub, " \t"), ")") {
+					// whether the word behind ") " is examined is read differently (dash and bash: yes, go.sh: no)
+					ambiguous = true
+				}
 				if examine && ci == len(f.Cmds)-1 && wi == len(c.Words)-1 && f.Blank == "" && depth > 0 {
 					ambiguous = true
 				}
@@ -699,12 +721,40 @@ func c17Unfold(f c17Frag, table map[string]c17Frag, active map[string]bool, dept
 			}
 		}
 		b.WriteString(t + c.Sep)
+		pending = ci == len(f.Cmds)-1 && prefix == len(c.Words) && (c.Wrap == "" || c.Wrap == "! " && examine) && c.Sep == "" && f.Comment == "" && (ci > 0 || cmdPos)
 	}
-	return b.String() + f.Comment + f.Blank, ambiguous
+	return b.String() + f.Comment + f.Blank, ambiguous, pending
+}
+
+var c17RedirWord = regexp.MustCompile(`^[0-9]*[<>]`)
+
+// c17PrefixWord: an assignment word or a redirection written as one word.
+func c17PrefixWord(w c17W) bool {
+	return w.Name == "" && (c17RedirWord.MatchString(w.Text) || c17AssignShape.MatchString(w.Text))
+}
+
+// c17PrefixText: the text is nothing but assignment words and redirections.
+func c17PrefixText(s string) bool {
+	fs := strings.Fields(s)
+	for _, f := range fs {
+		if !c17RedirWord.MatchString(f) && !c17AssignShape.MatchString(f) {
+			return false
+		}
+	}
+	return len(fs) > 0
 }
 
 func c17GenFrag(rt *rapid.T, names []string, value bool) c17Frag {
 	var f c17Frag
+	if value && rapid.IntRange(0, 7).Draw(rt, "redir_value") == 0 {
+		// a value that is a redirection: behind a blank-ended alias it is
+		// examined like any other word, also behind a compound command
+		f.Cmds = []c17Cmd{{Words: []c17W{{Text: rapid.SampledFrom([]string{">out", "2>&1", "<in", ">>log"}).Draw(rt, "redir_text")}}}}
+		if rapid.Bool().Draw(rt, "redir_blank") {
+			f.Blank = " "
+		}
+		return f
+	}
 	n := rapid.SampledFrom([]int{1, 1, 2, 2, 3}).Draw(rt, "ncmds")
 	for i := 0; i < n; i++ {
 		var c c17Cmd
